@@ -88,7 +88,7 @@ class Report:
             f.write(body)
         return path
 
-    def finish(self, coverage, assumptions=()):
+    def finish(self, coverage, assumptions=(), write_evidence=True):
         """Write the evidence file, print verdict lines, return the exit code."""
         wall = time.monotonic() - self.t0
         cov = dict(coverage)
@@ -113,12 +113,13 @@ class Report:
             "wall_s": round(wall, 3),
             "violations": n_viol,
         }
-        os.makedirs(EVIDENCE_DIR, exist_ok=True)
-        tmp = os.path.join(EVIDENCE_DIR, f".{self.prop}.json.tmp{os.getpid()}")
-        with open(tmp, "w", encoding="utf-8") as f:
-            json.dump(jsonable_top(ev), f, indent=1, sort_keys=True)
-            f.write("\n")
-        os.replace(tmp, os.path.join(EVIDENCE_DIR, f"{self.prop}.json"))
+        if write_evidence:
+            os.makedirs(EVIDENCE_DIR, exist_ok=True)
+            tmp = os.path.join(EVIDENCE_DIR, f".{self.prop}.json.tmp{os.getpid()}")
+            with open(tmp, "w", encoding="utf-8") as f:
+                json.dump(jsonable_top(ev), f, indent=1, sort_keys=True)
+                f.write("\n")
+            os.replace(tmp, os.path.join(EVIDENCE_DIR, f"{self.prop}.json"))
 
         for kid, v in sorted(self.known_seen.items()):
             print(f"KNOWN-FINDING: property={self.prop} {kid}: {v['what']} (seen {v['count']}x)")
